@@ -215,3 +215,56 @@ def typestate_rules(facts, rep, rule="C12-TSX"):
     rep.assume("flate2/bzip2/zstd encoders own the sink they are constructed with and return it from finish()")
     rep.count("typestate_seconds_x10", int((time.time() - t0) * 10))
     return ok
+
+
+# ------------------------------------------------------------------------------------------------------------------ AES reader
+def aes_typestate_rules(facts, rep, rule="C16-TSX"):
+    """E6 applied to AesReaderValid: abstract state (data_remaining: zero | nonzero, finalized: bool); alphabet {read}; initial
+    states read off AesReader::validate.  Obligation: in no state reachable by any sequence of read() calls -- including calls after
+    a read that failed half-way (I/O error on the data or on the authentication code, MAC mismatch) -- does `assert!(!finalized)`
+    (or any other state-decided panic) fire; and once the data is exhausted read() returns Ok(0) without touching the MAC again."""
+    ok = True
+    rd = [g for g in facts.fns if re.search(r"^<aes::AesReaderValid<\w+> as std::io::Read>::read$", g.path)]
+    va = [g for g in facts.fns if re.search(r"^aes::AesReader::<\w+>::validate$", g.path)]
+    if not rd or not va:
+        return True     # AES support is not compiled in this configuration
+    tracked = {("data_remaining",): "zn", ("finalized",): "bool"}
+    spec = Spec(tracked, r"^aes::|AesReaderValid")
+    m = Machine(facts, spec)
+    try:
+        inits = []
+        for kind, rav, s2 in m.run(va[0], [TOP] * va[0].arg_count, {}):
+            v = rav
+            for _ in range(3):
+                if kind == "ret" and v[0] == "var" and v[1] in ("Ok", "Some"):
+                    v = v[2]
+            if kind == "ret" and v[0] == "struct" and "AesReaderValid" in v[1]:
+                d = dict(v[2])
+                inits.append(("validate", {P: spec.coerce(P, d.get(P[0], TOP)) for P in tracked}))
+        if not inits:
+            raise Unsupported("AesReader::validate does not return an AesReaderValid record the engine can read")
+        states, trans = explore(m, inits, [("read", rd[0])], lambda fn, sg: [("ref", ()), TOP], max_states=200)
+    except (Unsupported, TooComplex) as e:
+        rep.violation(rule, "unsupported", "", "the AES reader's state machine could not be computed on this tree (%s) -- fail closed" % str(e)[:200])
+        return False
+    rep.count("aes_typestate_states", len(states))
+    pan, bad = {}, {}
+    for (k, lab, kind, oc, k2, rav) in trans:
+        s = states[k][0]
+        if kind != "ret":
+            key = "panic:%s<-%s" % (re.sub(r"\s*@.*$", "", kind[1]), lab)
+            pan.setdefault(key, (trace(states, k), kind[1], show_state(s)))
+            continue
+        s2 = dict(k2)
+        if s[("data_remaining",)] == TAG("zero") and not (oc == "Ok" and rav[2] == C(0) and s2 == s):
+            bad.setdefault("eof-sticky", "read() with nothing left returns %s / changes state %s -> %s (witness: %s)" % (oc, show_state(s), show_state(s2), trace(states, k)))
+        if s2[("finalized",)] == C(1) and s2[("data_remaining",)] != TAG("zero"):
+            bad.setdefault("finalized=>exhausted", "a read() leaves the MAC finalised while the object still counts bytes to read [%s] (witness: %s -> read:%s): the next read() "
+                           "re-enters the data path with a finalised MAC" % (show_state(s2), trace(states, k), oc))
+    for key, (tr, site, st) in sorted(pan.items()):
+        ok = False
+        rep.violation(rule, key, site.split("@")[-1].strip().split(" ")[0], "read() can panic after: %s, in state [%s] (%s)" % (tr, st, site))
+    rep.check(not pan, rule, "panic-free", where(rd[0], rd[0].span), "no state-decided panic in any of %d reachable states of the AES reader" % len(states), "%d panic(s) reachable" % len(pan))
+    for key in ("eof-sticky", "finalized=>exhausted"):
+        ok &= rep.check(key not in bad, rule, key, where(rd[0], rd[0].span), "holds in all %d reachable states" % len(states), bad.get(key, ""))
+    return ok and not pan
